@@ -113,6 +113,10 @@ def check(ctx):
             for j, (at_, loc_, what) in enumerate(dangling_uses(a_)):
                 ctx.ob("C18.P", "%s#dangling#%d" % (bd["key"], j), REFUTED, what, at=at_, cfg=cfg)
         ctx.ob("C18.P", "sweep (%s)" % cfg, n_sw >= 10, "bodies with raw pointer operations swept for accesses to storage-dead locals: %d" % n_sw, cfg=cfg)
+        # C18.M: write permission - the compile-time evaluator rejects a write through a pointer derived from a shared reference (and it is
+        # undefined behaviour at run time): the mutable forms must derive their pointers from `&mut` all the way
+        from ..rules import check_write_permission
+        check_write_permission(ctx, cfg, "C18.M")
         # UB-freedom obligations of the const fns: cross-referenced rule instances
         check_views(ctx, cfg)
         check_const_transmute(ctx, cfg)
